@@ -156,15 +156,15 @@ static int fmt_uintmax (
 			/* emit sign */
 			if (signchar && bp < be) *bp++ = signchar;
 
+			/* copy prefix if necessary. the fill goes between the prefix and the digit part */
+			if (prefix) while (*prefix && bp < be) *bp++ = *prefix++;
+
 			/* fill the left side */
 			while (fillsize > reslen)
 			{
 				*bp++ = fillchar;
 				fillsize--;
 			}
-
-			/* copy prefix if necessary */
-			if (prefix) while (*prefix && bp < be) *bp++ = *prefix++;
 
 			/* add 0s for precision */
 			while (preczero > 0 && bp < be)
